@@ -109,6 +109,32 @@ CLAIMED["C16"] = (
     "Properties_C16.v and DESIGN.md). Trusted: translator, harness, p21tok, one fixed schema.",
     "DESIGN.md C16")
 
+CLAIMED["C10"] = (
+    "Rocq/Coq theorems on the lazy index tables (transpose, exactness) and on the dependency worklist "
+    "(termination, = transitive closure); lazy vs eager correspondence in several load orders",
+    "coq/Properties_C10.v (axiom-free) over coq/Lazy.v: for every instance list with unique ids and arbitrary "
+    "reference lists (cycles, self references, multiplicities) the reverse table built by addLazyInstance is the exact "
+    "multiset transpose of the forward table, the forward table holds exactly each instance's references, and the "
+    "worklist of instanceDependencies terminates with the fuel it is given and returns exactly the reflexive-free "
+    "transitive closure. Tied to the code by comparing the extracted model with lazyInstMgr's tables and dependency "
+    "sets on generated populations; index (ids, keywords) and the serialisation of every instance loaded in ascending, "
+    "descending and random orders with repetitions are compared with the eager reader (testing).",
+    "Section scanner and loadInstance are not modelled (partial). Trusted: Judy arrays as association lists, "
+    "harness/h_lazy.cc (reads protected members), p21tok, one schema.",
+    "DESIGN.md C10")
+CLAIMED["C11"] = (
+    "Rocq/Coq theorem: the inverse resolution returns exactly the referrers (no miss, no extra, no duplicate) "
+    "for any population and subtype relation; lazyRefs vs model and vs referrers computed from the population",
+    "coq/Properties_C11.v (axiom-free): resolve_inverse (candidates = distinct reverse-table entries, narrowed by type "
+    "E-or-subtype and by attribute a of E really referring to x) yields, for any population with unique ids, any "
+    "subtype relation and any inverse declaration, exactly the instances y of type <= E whose a refers to x, each "
+    "once; instances mentioning x only through other attributes are excluded. Tied to lazyRefs.h by generated "
+    "populations of schemas/verif_inv.exp (three inverses on one entity incl. two onto the same entity, inherited "
+    "inverses, aggregate and single-valued, referrers of a subtype, mentions through other attributes) and "
+    "verif_all.exp, every instance loaded in several orders, inverse contents vs extracted model and vs oracle.",
+    "That lazyRefs implements resolve_inverse is established by the correspondence only. Trusted: harness, generator.",
+    "DESIGN.md C11")
+
 NOT_APPLICABLE = {}
 
 ALL = ["C%02d" % i for i in range(1, 21)]
